@@ -822,6 +822,7 @@ func modeParse(tier string, n int, alpha string, maxlen int) {
 	for _, s := range corpusParse {
 		emitParse("corpus", s)
 	}
+	intSweep()
 	for _, s := range []string{"/a<b>", "_:a", "\"p\"@[]", "\"1\"^^type:int64", "/a<b>\t\"p\"@[]\t\"x\"^^type:text"} {
 		for _, b := range blanks {
 			emitParse("corpus", b+s)
@@ -2236,6 +2237,143 @@ func modeTime(n int) {
 	emitF(time.Date(1900, 1, 1, 12, 0, 0, 0, time.FixedZone("LMT", 1172)))
 	emitF(time.Date(-1, 12, 31, 23, 0, 0, 0, time.UTC))
 	emitF(time.Date(10000, 1, 1, 0, 0, 0, 0, time.UTC))
+}
+
+// intsweep (part of the parse mode): a dense sweep of small integers and of all powers of two with their neighbours, in
+// every spelling strconv.ParseInt accepts, through both literal builders (Build and Parse), triple.ParseObject, triple.Parse
+// and one ReadIntoGraph: a value or an error, never (nil, nil), never a panic, and the value is the integer that was written
+func intSweep() {
+	var ints []int64
+	for i := int64(-1100); i <= 1100; i++ {
+		ints = append(ints, i)
+	}
+	for k := uint(0); k <= 63; k++ {
+		p := int64(1) << k // wraps to MinInt64 for k = 63
+		for _, d := range []int64{-1, 0, 1} {
+			ints = append(ints, p+d, -(p + d), -p+d)
+		}
+	}
+	ints = append(ints, math.MaxInt64, math.MinInt64, math.MaxInt64-1, math.MinInt64+1)
+	calls, bad := 0, 0
+	var ex []J
+	report := func(what string, v int64, text string) {
+		bad++
+		if len(ex) < 10 {
+			ex = append(ex, J{"what": what, "value": strconv.FormatInt(v, 10), "text": text})
+		}
+	}
+	checkLit := func(what string, v int64, text string, f func() (*literal.Literal, error)) {
+		calls++
+		defer func() {
+			if r := recover(); r != nil {
+				report(what+": panic", v, text)
+			}
+		}()
+		l, err := f()
+		switch {
+		case err != nil:
+			report(what+": error for a well-formed int64", v, text)
+		case l == nil:
+			report(what+": (nil, nil)", v, text)
+		default:
+			if got, e := l.Int64(); e != nil || got != v || l.Type() != literal.Int64 {
+				report(what+": wrong value", v, text)
+			}
+		}
+	}
+	s1, p1 := nodeOf("/s", "1"), immOf("p")
+	var lines strings.Builder
+	nlines := 0
+	seen := map[int64]bool{}
+	for _, v := range ints {
+		if seen[v] {
+			continue
+		}
+		seen[v] = true
+		dec := strconv.FormatInt(v, 10)
+		spell := []string{dec}
+		if v >= 0 {
+			spell = append(spell, "+"+dec, "0"+dec, "+00"+dec)
+		} else {
+			spell = append(spell, "-0"+dec[1:], "-000"+dec[1:])
+		}
+		for _, b := range []struct {
+			name string
+			b    literal.Builder
+		}{{"default builder", literal.DefaultBuilder()}, {"bounded builder", literal.NewBoundedBuilder(64)}} {
+			bb := b.b
+			checkLit(b.name+" Build", v, dec, func() (*literal.Literal, error) { return bb.Build(literal.Int64, v) })
+			for _, sp := range spell {
+				text := "\"" + sp + "\"^^type:int64"
+				checkLit(b.name+" Parse", v, text, func() (*literal.Literal, error) { return bb.Parse(text) })
+				calls++
+				func() {
+					defer func() {
+						if r := recover(); r != nil {
+							report(b.name+" ParseObject: panic", v, text)
+						}
+					}()
+					o, err := triple.ParseObject(text, bb)
+					if err != nil || o == nil {
+						report(b.name+" ParseObject: error or nil", v, text)
+						return
+					}
+					if l, e := o.Literal(); e != nil || l == nil {
+						report(b.name+" ParseObject: object boxes no literal", v, text)
+					} else if got, e2 := l.Int64(); e2 != nil || got != v {
+						report(b.name+" ParseObject: wrong value", v, text)
+					}
+				}()
+				line := s1.str() + "\t" + p1.str() + "\t" + text
+				calls++
+				func() {
+					defer func() {
+						if r := recover(); r != nil {
+							report(b.name+" triple.Parse: panic", v, line)
+						}
+					}()
+					tr, err := triple.Parse(line, bb)
+					if err != nil || tr == nil {
+						report(b.name+" triple.Parse: error or nil", v, line)
+						return
+					}
+					if l, e := tr.Object().Literal(); e != nil || l == nil {
+						report(b.name+" triple.Parse: object boxes no literal", v, line)
+					} else if got, e2 := l.Int64(); e2 != nil || got != v {
+						report(b.name+" triple.Parse: wrong value", v, line)
+					}
+				}()
+			}
+		}
+		lines.WriteString(s1.str() + "\t" + p1.str() + "\t\"" + spell[len(spell)-1] + "\"^^type:int64\n")
+		nlines++
+	}
+	// all of them through the reader
+	func() {
+		calls++
+		defer func() {
+			if r := recover(); r != nil {
+				report("ReadIntoGraph: panic", 0, "")
+			}
+		}()
+		g := newGraph()
+		cnt, err := bwio.ReadIntoGraph(context.Background(), g, strings.NewReader(lines.String()), literal.DefaultBuilder())
+		ls, _ := graphLines(g)
+		if err != nil || cnt != nlines || len(ls) != nlines {
+			report(fmt.Sprintf("ReadIntoGraph: cnt %d, stored %d, error %v for %d well-formed lines", cnt, len(ls), err != nil, nlines), 0, "")
+		}
+	}()
+	emit(J{"kind": "intsweep", "integers": len(seen), "calls": calls, "bad": bad, "examples": ex})
+	// a sample also goes to the Coq model (all parsers)
+	for _, v := range ints {
+		if v%37 == 0 || v == 127 || v == -128 || v == 128 || v == -129 || (v > 1100 || v < -1100) && (v&(v-1) == 0 || v%5 == 0) {
+			dec := strconv.FormatInt(v, 10)
+			emitParse("intsweep", "\""+dec+"\"^^type:int64")
+			if v >= 0 {
+				emitParse("intsweep", "\"+0"+dec+"\"^^type:int64")
+			}
+		}
+	}
 }
 
 // hash mode: one hex line per pre-image component list ("aa,bb,cc" = triple of three components); prints the UUID
